@@ -49,7 +49,10 @@ out += ['', 'Every MISSED entry of the multi-seed sweeps was traced to a trigger
         'caught with seeds 0-3 after the re-weighting (store histories on packed lists with zero tails and on bit vectors, unions '
         'listing one type at several selectors, gap edits of container encodings); the four MISSED entries of the all240 sweeps '
         '(C06H / C14A seed 0, C02L / C17I seed 1) likewise: caught with seeds 0-2 (C06H: 0-3) after more lazy store histories on packed '
-        'lists, more byte-like constructor cases, a handful of shared container class names, and union value writes on partial trees.', '',
+        'lists, more byte-like constructor cases, a handful of shared container class names, and union value writes on partial trees; '
+        'the MISSED entries of the all280 / all320 sweeps (C02M, C10M, C08O seed 1; C06M seed 0) likewise: caught with seeds 0-3 after '
+        'byte-sized elements filling exactly one / two chunks became fixed cases, the later-offset table was enlarged, paths through '
+        'container types that print alike were added to the C08 check and root unions with a snapshot and a copy to the store checks.', '',
         '| change | file(s) touched | ' + ' | '.join(l.replace('.log', '').replace('rounds123_', 'r123 ').replace('_', ' ') for l in logs) + ' |',
         '|---|---|' + '---|' * len(logs)]
 for mid, v in rows.items():
